@@ -525,3 +525,59 @@ pub fn ws_block_strings() -> Vec<Value> {
     }
     out
 }
+
+
+/// Numeric literals with one foreign character (sign, space, underscore, comma, dot, an invalid digit)
+/// inserted at every position, and long radix literals with an invalid character at the front, in the
+/// middle and at the end of their digits: a scanner that skips, swallows or stops early accepts some.
+pub fn mutated_literals() -> Vec<Value> {
+    let mut out: Vec<String> = Vec::new();
+    for base in ["0x1f", "0b11", "0o17", "12", "1.5", "1e3", "-7", "Infinity", ".5"] {
+        let chars: Vec<char> = base.chars().collect();
+        for pos in 0..=chars.len() {
+            for ins in ['+', '-', ' ', '_', ',', '.', 'g', '9', 'e'] {
+                let mut t: String = chars[..pos].iter().collect();
+                t.push(ins);
+                t.extend(chars[pos..].iter());
+                out.push(t);
+            }
+        }
+    }
+    for (prefix, good, bad) in [("0x", 'f', 'g'), ("0x", '0', 'z'), ("0o", '7', '8'), ("0b", '1', '2'), ("0b", '0', ' ')] {
+        for n in [15usize, 16, 17, 22, 33, 65, 70] {
+            let body = good.to_string().repeat(n);
+            out.push(format!("{}{}{}", prefix, body, bad));
+            out.push(format!("{}{}{}", prefix, bad, body));
+            out.push(format!("{}{}{}{}", prefix, &body[..n / 2], bad, &body[n / 2..]));
+            out.push(format!("{}{} 1", prefix, body));
+        }
+    }
+    dedup(out.into_iter().map(Value::String).collect())
+}
+
+/// Nesting depths around the limits that recursive helpers and "defensive" caps choose.
+pub fn depth_classes(thorough: bool) -> Vec<usize> {
+    if thorough {
+        vec![8, 16, 17, 32, 33, 63, 64, 65, 100, 120, 126]
+    } else {
+        vec![17, 33, 65, 100, 126]
+    }
+}
+
+/// `depth` arrays around `leaf`.
+pub fn nest_arrays(depth: usize, leaf: Value) -> Value {
+    let mut v = leaf;
+    for _ in 0..depth {
+        v = Value::Array(vec![v]);
+    }
+    v
+}
+
+/// `depth` single-member objects around `leaf` (key "k").
+pub fn nest_objects(depth: usize, leaf: Value) -> Value {
+    let mut v = leaf;
+    for _ in 0..depth {
+        v = json!({ "k": v });
+    }
+    v
+}
